@@ -12,6 +12,9 @@ import (
 	"go/token"
 	"go/types"
 	"math/big"
+	"strings"
+
+	"golang.org/x/tools/go/ssa"
 
 	"decverif/internal/model"
 	"decverif/internal/ob"
@@ -205,7 +208,8 @@ func runConst(m *model.Model, s *ob.Set) {
 					model.Fatal("%s: non-constant field", tb.name)
 				}
 			}
-			d, mm, pre, post := f[0], f[1], f[2].Int64(), f[3].Int64()
+			role := magicRoles(m)
+			d, mm, pre, post := f[role[0]], f[role[1]], f[role[2]].Int64(), f[role[3]].Int64()
 			ok2 := d.Cmp(pow(10, int64(i+1))) == 0 && mm.Cmp(two(tb.w)) < 0
 			// 2^pre | d
 			if new(big.Int).Mod(d, two(pre)).Sign() != 0 {
@@ -244,8 +248,12 @@ func runConst(m *model.Model, s *ob.Set) {
 		wantOff := []int64{0, 8, 16, 17}
 		wantSize := []int64{8, 8, 1, 1}
 		okl := sizes.Sizeof(st) == 24 && len(fl) == 4
-		for i, f := range fl {
-			if i >= 4 || offs[i] != wantOff[i] || sizes.Sizeof(f.Type()) != wantSize[i] {
+		// which field plays which part (divisor, multiplier, pre-shift, post-shift) is read off
+		// the Go method that divides by a magic, not off the field names
+		role := magicRoles(m)
+		for r := 0; r < 4 && okl; r++ {
+			i := role[r]
+			if i >= len(fl) || offs[i] != wantOff[r] || sizes.Sizeof(fl[i].Type()) != wantSize[r] {
 				okl = false
 			}
 		}
@@ -328,5 +336,114 @@ func runConst(m *model.Model, s *ob.Set) {
 			}
 		}
 		s.Check(val != nil && val.Int64() >= 2, R, "threshold/"+n, m.Pos(o.Pos()), fmt.Sprint(val), fmt.Sprintf("%s must be initialised to a constant >= 2 (karatsubaLen and the n<2 guards assume it)", n))
+	}
+}
+
+// magicRoles returns the field indices of struct magic that play the parts divisor, multiplier,
+// pre-shift and post-shift, read off the method that divides by a magic:
+// q = hi(bits.Mul(n >> PRE, M)) >> POST; r = n - q*D. Falls back to declaration order.
+func magicRoles(m *model.Model) [4]int {
+	role := [4]int{0, 1, 2, 3}
+	var fn *ssa.Function
+	for _, f := range m.Funcs {
+		if !m.InDecimalPkg(f) || f.Signature.Recv() == nil || len(f.Blocks) == 0 {
+			continue
+		}
+		if n, ok := f.Signature.Recv().Type().(*types.Named); ok && n.Obj().Name() == "magic" {
+			// the method that calls bits.Mul
+			for _, b := range f.Blocks {
+				for _, in := range b.Instrs {
+					if c, ok := in.(*ssa.Call); ok {
+						if cal := c.Call.StaticCallee(); cal != nil && cal.Pkg != nil && cal.Pkg.Pkg.Path() == "math/bits" && strings.HasPrefix(cal.Name(), "Mul") {
+							fn = f
+						}
+					}
+				}
+			}
+		}
+	}
+	if fn == nil {
+		m.Blind("CONST: no method of magic calling bits.Mul found; field roles taken from declaration order")
+		return role
+	}
+	fieldOf := func(v ssa.Value) int {
+		for {
+			switch x := v.(type) {
+			case *ssa.Convert:
+				v = x.X
+				continue
+			case *ssa.ChangeType:
+				v = x.X
+				continue
+			case *ssa.Field:
+				return x.Field
+			case *ssa.UnOp:
+				if fa, ok := x.X.(*ssa.FieldAddr); ok && x.Op == token.MUL {
+					return fa.Field
+				}
+			}
+			return -1
+		}
+	}
+	found := [4]bool{}
+	var mul *ssa.Call
+	for _, b := range fn.Blocks {
+		for _, in := range b.Instrs {
+			if c, ok := in.(*ssa.Call); ok {
+				if cal := c.Call.StaticCallee(); cal != nil && cal.Pkg != nil && cal.Pkg.Pkg.Path() == "math/bits" && strings.HasPrefix(cal.Name(), "Mul") {
+					mul = c
+					for _, a := range c.Call.Args {
+						if i := fieldOf(a); i >= 0 {
+							role[1], found[1] = i, true
+						}
+						if sh, ok := stripConvAny(a).(*ssa.BinOp); ok && sh.Op == token.SHR {
+							if i := fieldOf(sh.Y); i >= 0 {
+								role[2], found[2] = i, true
+							}
+						}
+					}
+				}
+			}
+		}
+	}
+	for _, b := range fn.Blocks {
+		for _, in := range b.Instrs {
+			bo, ok := in.(*ssa.BinOp)
+			if !ok {
+				continue
+			}
+			switch bo.Op {
+			case token.SHR:
+				if ex, ok := stripConvAny(bo.X).(*ssa.Extract); ok && ex.Tuple == ssa.Value(mul) {
+					if i := fieldOf(bo.Y); i >= 0 {
+						role[3], found[3] = i, true
+					}
+				}
+			case token.MUL:
+				if i := fieldOf(bo.Y); i >= 0 {
+					role[0], found[0] = i, true
+				} else if i := fieldOf(bo.X); i >= 0 {
+					role[0], found[0] = i, true
+				}
+			}
+		}
+	}
+	if found != [4]bool{true, true, true, true} {
+		m.Blind("CONST: the division method of magic is not of the shape hi(Mul(n>>pre, m))>>post, n-q*d; field roles taken from declaration order")
+		return [4]int{0, 1, 2, 3}
+	}
+	return role
+}
+
+func stripConvAny(v ssa.Value) ssa.Value {
+	for {
+		switch x := v.(type) {
+		case *ssa.Convert:
+			v = x.X
+		case *ssa.ChangeType:
+			v = x.X
+		default:
+			return v
+		}
 	}
 }
